@@ -61,7 +61,7 @@ class C05World(DstWorld):
                     buf[ev[1]:ev[1] + len(data)] = data
                     files[cur] = bytes(buf).hex()
         fins = self.inds(out, "finished")
-        if fins and cur is not None and self.c["disposition"] and fins[0]["cond"] != "NO_ERROR":
+        if fins and cur is not None and self.c["disposition"] and fins[0]["cond"] != "NO_ERROR" and fins[0]["deliv"] == "DATA_INCOMPLETE":
             # permitted deletion of the resolved path (judged exactly by C12): the model follows the filestore
             if not os.path.exists(cur):
                 files.pop(cur, None)
@@ -111,7 +111,7 @@ def configs(tier):
 def run(tier: str) -> int:
     run_ = Run(P, tier, assumptions=[
         "a File Data PDU counts as accepted iff the call did not raise and a File-Segment-Recv indication was delivered for it; Metadata counts as accepted iff a Metadata-Recv indication was delivered",
-        "deleting the resolved destination path is permitted only with disposition-on-cancellation configured and a non-successful Transaction-Finished in the same call (the exact condition is C12's subject)",
+        "deleting the resolved destination path is permitted only with disposition-on-cancellation configured and a non-successful Transaction-Finished reporting an incomplete delivery in the same call (the exact condition is C12's subject)",
     ])
     depth = 5 if tier == "quick" else 7
     cfgs = configs(tier)
